@@ -2,6 +2,7 @@ package c19
 
 import (
 	"bytes"
+	"context"
 	"crypto/ed25519"
 	"fmt"
 	"io"
@@ -42,8 +43,8 @@ import (
 	"github.com/tink-crypto/tink-go/v2/signature/compositemldsa"
 	"github.com/tink-crypto/tink-go/v2/signature/mldsa"
 	"github.com/tink-crypto/tink-go/v2/signature/slhdsa"
-	"github.com/tink-crypto/tink-go/v2/streamingaead"
 	sigsubtle "github.com/tink-crypto/tink-go/v2/signature/subtle"
+	"github.com/tink-crypto/tink-go/v2/streamingaead"
 	streamsubtle "github.com/tink-crypto/tink-go/v2/streamingaead/subtle"
 	"github.com/tink-crypto/tink-go/v2/tink"
 	"github.com/tink-crypto/tink-go/v2/verifharness/hx"
@@ -549,15 +550,37 @@ type ctor struct {
 // ctorPrep: optional per-constructor hook that makes the random inputs valid
 // before the guards are armed.
 var ctorPrep = map[string]func(in [][]byte){
-	"jwt/jwtecdsa.NewPublicKey(opts.PublicPoint)":   func(in [][]byte) { copy(in[0], p256Point()) },
-	"jwt/jwtrsassapkcs1.NewPublicKey(opts.Modulus)": func(in [][]byte) { in[0][0] |= 0x80; in[0][len(in[0])-1] |= 1 },
-	"jwt/jwtrsassapss.NewPublicKey(opts.Modulus)":   func(in [][]byte) { in[0][0] |= 0x80; in[0][len(in[0])-1] |= 1 },
-	"signature/subtle.NewED25519Verifier":           func(in [][]byte) { copy(in[0], ed25519FixedKey().Public().(ed25519.PublicKey)) },
+	"jwt/jwtecdsa.NewPublicKey(opts.PublicPoint)":           func(in [][]byte) { copy(in[0], p256Point()) },
+	"jwt/jwtrsassapkcs1.NewPublicKey(opts.Modulus)":         func(in [][]byte) { in[0][0] |= 0x80; in[0][len(in[0])-1] |= 1 },
+	"jwt/jwtrsassapss.NewPublicKey(opts.Modulus)":           func(in [][]byte) { in[0][0] |= 0x80; in[0][len(in[0])-1] |= 1 },
+	"aead.NewKMSEnvelopeAEAD2(dekTemplate.Value)":           func(in [][]byte) { copy(in[0], aead.AES128GCMKeyTemplate().Value) },
+	"aead.NewKMSEnvelopeAEADWithContext(dekTemplate.Value)": func(in [][]byte) { copy(in[0], aead.AES128GCMKeyTemplate().Value) },
+	"signature/subtle.NewED25519Verifier":                   func(in [][]byte) { copy(in[0], ed25519FixedKey().Public().(ed25519.PublicKey)) },
 }
 
 var fixedMsg = []byte("c19 fixed message for fingerprints")
 
-func ed25519FixedKey() ed25519.PrivateKey { return ed25519.NewKeyFromSeed(bytes.Repeat([]byte{0x42}, 32)) }
+// kmsTestKEK: a local AEAD standing in for the remote key-encryption AEAD of a KMS envelope
+func kmsTestKEK() (tink.AEAD, error) {
+	kh, err := keyset.NewHandle(aead.AES256GCMKeyTemplate())
+	if err != nil {
+		return nil, err
+	}
+	return aead.New(kh)
+}
+
+type kekWithContext struct{ a tink.AEAD }
+
+func (k kekWithContext) EncryptWithContext(_ context.Context, pt, ad []byte) ([]byte, error) {
+	return k.a.Encrypt(pt, ad)
+}
+func (k kekWithContext) DecryptWithContext(_ context.Context, ct, ad []byte) ([]byte, error) {
+	return k.a.Decrypt(ct, ad)
+}
+
+func ed25519FixedKey() ed25519.PrivateKey {
+	return ed25519.NewKeyFromSeed(bytes.Repeat([]byte{0x42}, 32))
+}
 
 func ctors() []ctor {
 	return []ctor{
@@ -791,6 +814,32 @@ func ctors() []ctor {
 			}
 			return func() []byte { return k.Modulus() }, nil
 		}, []int{256}},
+		{"aead.NewKMSEnvelopeAEAD2(dekTemplate.Value)", func(in [][]byte) (func() []byte, error) {
+			kek, err := kmsTestKEK()
+			if err != nil {
+				return nil, err
+			}
+			tmpl := aead.AES128GCMKeyTemplate()
+			tmpl.Value = in[0] // the caller's template object, its format bytes in the guarded buffer
+			env := aead.NewKMSEnvelopeAEAD2(tmpl, kek)
+			return func() []byte { c, err := env.Encrypt(fixedMsg, nil); return []byte(fmt.Sprint(len(c), err)) }, nil
+		}, []int{2}},
+		{"aead.NewKMSEnvelopeAEADWithContext(dekTemplate.Value)", func(in [][]byte) (func() []byte, error) {
+			kek, err := kmsTestKEK()
+			if err != nil {
+				return nil, err
+			}
+			tmpl := aead.AES128GCMKeyTemplate()
+			tmpl.Value = in[0]
+			env, err := aead.NewKMSEnvelopeAEADWithContext(tmpl, kekWithContext{kek})
+			if err != nil {
+				return nil, err
+			}
+			return func() []byte {
+				c, err := env.EncryptWithContext(context.Background(), fixedMsg, nil)
+				return []byte(fmt.Sprint(len(c), err))
+			}, nil
+		}, []int{2}},
 		{"signature/subtle.NewED25519Verifier", func(in [][]byte) (func() []byte, error) {
 			v, err := sigsubtle.NewED25519Verifier(in[0])
 			if err != nil {
